@@ -868,6 +868,8 @@ class OpGen:
                         self.op.fragments[nm] = (cond, inner)
                         self.complete_frags.append((nm, cond))
                         sels.append(Spread(nm, self._dirs()))
+        if depth > 0 and self.budget > 2 and st.chance(1, 8, "diamond"):
+            sels.extend(self._diamond(tname))
         if not sels:
             # a selection set must not be empty
             if fields and self.budget > -8:
@@ -879,6 +881,43 @@ class OpGen:
                 f.ptype = tname
                 sels.append(f)
         return sels
+
+    def _diamond(self, tname):
+        """Nested named fragments met in two orders: ``x { ...A ...B }`` and
+        ``y { ...B }`` with ``B = { ...A more }`` -- the first selection set
+        collects B when A was already visited, the second one needs all of B
+        (and both are selection sets of one type)."""
+        spec, st = self.spec, self.st
+        comps = [f for f in spec.type_fields(tname)
+                 if spec.is_composite(named(spec.fields[f].type))]
+        if not comps:
+            return []
+        lead = self._gen_field(tname, 1, only=comps, literal_args=True)
+        if lead is None or lead.sel is None:
+            return []
+        inner_t = named(spec.fields[lead.name].type)
+        a = "F%d" % self.nfrag
+        b = "F%d" % (self.nfrag + 1)
+        self.nfrag += 2
+        sel_a = self.gen_selset(inner_t, 0)
+        sel_b = [Spread(a)] + self.gen_selset(inner_t, 0)
+        self.op.fragments[a] = (inner_t, sel_a)
+        self.op.fragments[b] = (inner_t, sel_b)
+        self.complete_frags.extend([(a, inner_t), (b, inner_t)])
+        first = [Spread(a), Spread(b)]
+        if st.below(2, "dm_order"):
+            first.reverse()
+        # (the selection generated for the lead stays: it may be the only use
+        # of a declared variable)
+        lead.sel = first + lead.sel if st.below(2, "dm_keep") else \
+            lead.sel + first
+        twin = FieldSel(lead.name, alias="dm%d" % self.nfrag, args=lead.args,
+                        argspec=lead.argspec, sel=[Spread(b)])
+        twin.ptype = tname
+        out = [lead, twin]
+        if st.below(2, "dm_twin_first"):
+            out.reverse()
+        return out
 
     def _gen_field(self, tname, depth, force_leafish=False, only=None,
                    literal_args=False):
